@@ -272,6 +272,8 @@ def run(tier):
     # real calls
     specs = corpus.quick_specs() if tier == "quick" else corpus.thorough_specs()
     cases = corpus.generate(rep, specs)
+    if tier == "thorough":
+        cases = corpus.cap(cases, 40000)
     if tier == "quick":
         keep = {"elementwise": 16, "update_at": 30, "get_at": 10, "id": 6, "preserve": 4, "argfind": 4, "reduce": 2}
         cases = [c for i, c in enumerate(cases) if i % keep.get(c["fam"], 1) == 0]
